@@ -94,16 +94,28 @@ def run(tier, rep):
         proj = os.path.join(root, f"o{oi}")
         os.makedirs(os.path.join(proj, "out"))
         paths = {}
+        inputs = {}
         for p in deps:
             d = proj if p == "Main" else os.path.join(proj, p)
             os.makedirs(d, exist_ok=True)
             paths[p] = os.path.join(d, "main.gom" if p == "Main" else "lib.gom")
-            open(paths[p], "w").write(pkg_source(p, deps[p], flavour))
+            src = pkg_source(p, deps[p], flavour)
+            inputs[p] = [paths[p]]
+            if p != "Main" and oi % 2 == 1:
+                # multi-file package: the import-free helpers live in a second file that sorts *after* the first one
+                lines = src.split("\n")
+                moved = [l for l in lines if l.startswith(f"fn {p.lower()}_id[") or l.startswith(f"fn {p.lower()}_pair[") or l.startswith(f"fn {p.lower()}_pick(") or l.startswith(f"enum {p}E")]
+                rest = [l for l in lines if l not in moved]
+                src = "\n".join(rest)
+                second = os.path.join(d, "zz_misc.gom")
+                open(second, "w").write(f"package {p}\n" + "\n".join(moved) + "\n")
+                inputs[p].append(second)
+            open(paths[p], "w").write(src)
         ident = f"{shape}:{'>'.join(o['order'])}"
         bad = False
         for st in o["log"]:
             p = st["p"]
-            ok, err, pan = cli(["build", "--package", p, "--input", paths[p], "--interface-path", f"{proj}/out", "--output", f"{proj}/out/{p}"])
+            ok, err, pan = cli(["build", "--package", p, "--input"] + inputs[p] + ["--interface-path", f"{proj}/out", "--output", f"{proj}/out/{p}"])
             steps += 1
             if pan:
                 rep.violation(f"panic:build:{shape}", {"order": o["order"], "package": p, "stderr": err}); bad = True; break
@@ -111,7 +123,7 @@ def run(tier, rep):
                 rep.violation(f"build-verdict:{shape}:expected-{'ok' if st['ok'] else 'fail'}", {"order": o["order"], "package": p, "stderr": err}, replay={"order": o}); bad = True; break
             if ok:
                 # check and build of the same sources emit the same interface
-                ok2, err2, _ = cli(["check", "--package", p, "--input", paths[p], "--interface-path", f"{proj}/out", "--output", f"{proj}/chk/{p}"])
+                ok2, err2, _ = cli(["check", "--package", p, "--input"] + inputs[p] + ["--interface-path", f"{proj}/out", "--output", f"{proj}/chk/{p}"])
                 if not ok2:
                     rep.violation(f"check-rejects-what-build-accepts:{shape}", {"package": p, "stderr": err2}, replay={"order": o}); bad = True; break
                 if open(f"{proj}/chk/{p}.interface").read() != open(f"{proj}/out/{p}.interface").read():
@@ -146,6 +158,46 @@ def run(tier, rep):
             rep.violation(f"linked-go-syntax:{shape}", {"error": e, "order": o["order"]})
         else:
             go_recs.append(rec)
+    # ---- a project accepted one way must be accepted the other: Main uses an item of a package it reaches only transitively
+    A_SRC = "package A\nstruct S { v: int32 }\nimpl S { fn name(self: S) -> string { \"s\" } }\ntrait Sh { fn sh(Self) -> string; }\nimpl Sh for S { fn sh(self: S) -> string { \"sh\" } }\nfn mk() -> S { S { v: 1 } }\nfn k() -> float64 { 123456789.123456789123456789 }\n"
+    B_SRC = "package B\nimport A\nstruct Holder { s: A::S }\nfn hold() -> Holder { Holder { s: A::mk() } }\nfn kk() -> float64 { A::k() }\n"
+    uses = {
+        "legal-through-b": "let h = B::hold(); let _ = h; let _ = string_println(float64_to_string(B::kk())); ()",
+        "qualified-fn-of-transitive-package": "let s = A::mk(); let _ = s; ()",
+        "type-annotation-of-transitive-package": "let h = B::hold(); let B::Holder { s: s } = h; let t: A::S = s; let _ = t; ()",
+        "inherent-method-on-transitive-type": "let h = B::hold(); let B::Holder { s: s } = h; let _ = string_println(s.name()); ()",
+        "trait-method-of-transitive-package": "let h = B::hold(); let B::Holder { s: s } = h; let _ = string_println(A::Sh::sh(s)); ()",
+        "field-of-transitive-type": "let h = B::hold(); let B::Holder { s: s } = h; let _ = string_println(int32_to_string(s.v)); ()",
+    }
+    equiv = 0
+    for name, body in uses.items():
+        proj = os.path.join(root, "iso_" + name)
+        os.makedirs(proj + "/A"); os.makedirs(proj + "/B"); os.makedirs(proj + "/out")
+        open(proj + "/A/lib.gom", "w").write(A_SRC)
+        open(proj + "/B/lib.gom", "w").write(B_SRC)
+        open(proj + "/main.gom", "w").write("package Main\nimport B\nfn main() { " + body + " }\n")
+        whole = gv("compile", [{"id": name, "path": proj + "/main.gom"}])[0]
+        sep_ok = True
+        for p2, f2 in (("A", proj + "/A/lib.gom"), ("B", proj + "/B/lib.gom"), ("Main", proj + "/main.gom")):
+            ok, err, pan = cli(["build", "--package", p2, "--input", f2, "--interface-path", f"{proj}/out", "--output", f"{proj}/out/{p2}"])
+            if pan:
+                rep.violation(f"panic:build:isolation:{name}", {"stderr": err})
+            sep_ok = sep_ok and ok
+        if whole["verdict"] in ("panic", "timeout"):
+            rep.violation(f"crash:whole:isolation:{name}", {"at": whole.get("at")})
+        elif (whole["verdict"] == "ok") != sep_ok:
+            rep.violation(f"accepted-one-way-only:{name}", {"whole_program": whole["verdict"], "separate": "ok" if sep_ok else "rejected",
+                                                           "whole_diags": [d["msg"] for d in whole.get("diags", [])][:3]})
+        else:
+            equiv += 1
+        if name == "legal-through-b" and sep_ok and whole["verdict"] == "ok":
+            # numeric literals must survive the trip through the JSON artifacts unchanged
+            ok, err, _ = cli(["link", "--input", f"{proj}/out/A.core", f"{proj}/out/B.core", f"{proj}/out/Main.core", "--output", f"{proj}/out/linked.go"])
+            import re as _re
+            fl = lambda t: sorted(_re.findall(r"\b\d+\.\d+(?:[eE][-+]?\d+)?\b", t))
+            if ok and fl(open(f"{proj}/out/linked.go").read()) != fl(whole["go"]):
+                rep.violation("float-literal-changes-through-artifacts", {"whole": fl(whole["go"]), "linked": fl(open(f"{proj}/out/linked.go").read())})
+    rep.coverage["isolation_projects_equivalent"] = equiv
     # ---- GoStatic + GoSem over all Go texts; linked outcome must equal the whole-program outcome of the same (shape, flavour)
     static, st1 = gopipe.run_sharded("GoStatic", "GoStatic.cfg", go_recs, name="c14-static")
     sem_recs = [dict(rc, ast=gohoist.hoist(rc["ast"])) for rc in go_recs]
